@@ -280,3 +280,55 @@ func H08_Concurrent() {
 	_ = s.Close()
 	verif.Reach("end")
 }
+
+// H08_FragmentMeta: metadata updates survive later insertions into the same record: a fragment is pushed, the record is
+// updated (pending flag, a routing property, a moved expiry - any combination), then another fragment (new, duplicate,
+// overlapping or containing) is pushed, and the store may be closed and reopened: the lookup still shows the updated
+// pending flag, property and expiry, the pending query agrees, and the parts are those of the reference.
+func H08_FragmentMeta() {
+	dir := verif.TempDir("store")
+	s, err := NewStore(dir)
+	verif.Assert(err == nil, "store opens")
+	offs := []int{0, 0, 3, 5}
+	lens := []int{3, 8, 2, 3}
+	a := verif.Choose("first", len(offs))
+	b := verif.Choose("second", len(offs))
+	verif.Assert(s.Push(mkBundle(0, true, offs[a], lens[a])) == nil, "push of a fragment succeeds")
+	id := mkBundle(0, false, 0, 0).ID()
+	bi, qerr := s.QueryId(id)
+	verif.Assert(qerr == nil, "the record exists")
+	setPending, setProp, setExp := verif.Bool("pending"), verif.Bool("property"), verif.Bool("expiry")
+	if setPending {
+		bi.Pending = true
+	}
+	if setProp {
+		bi.Properties["routing/test"] = "value"
+	}
+	exp := bi.Expires
+	if setExp {
+		exp = bi.Expires.Add(-30 * time.Minute)
+		bi.Expires = exp
+	}
+	verif.Assert(s.Update(bi) == nil, "update succeeds")
+	verif.Assert(s.Push(mkBundle(0, true, offs[b], lens[b])) == nil, "push of a further fragment succeeds")
+	if verif.Bool("reopen") {
+		verif.Assert(s.Close() == nil, "store closes")
+		s, err = NewStore(dir)
+		verif.Assert(err == nil, "store reopens on the same directory")
+	}
+	got, gerr := s.QueryId(id)
+	verif.Assert(gerr == nil, "the record is still there")
+	verif.Assert(got.Pending == setPending, "the pending flag is as last updated, also after a further fragment was pushed")
+	_, hasProp := got.Properties["routing/test"]
+	verif.Assert(hasProp == setProp, "properties are as last updated, also after a further fragment was pushed")
+	verif.Assert(got.Expires.Equal(exp), "the expiry is as last updated, also after a further fragment was pushed")
+	pend, perr := s.QueryPending()
+	verif.Assert(perr == nil && (len(pend) == 1) == setPending, "the pending query returns exactly the records flagged pending")
+	wantParts := 1
+	if !(offs[b] == offs[a] && lens[b] <= lens[a]) {
+		wantParts = 2
+	}
+	verif.Assert(len(got.Parts) == wantParts, "each distinct fragment is collected once in the record")
+	_ = s.Close()
+	verif.Reach("end")
+}
